@@ -15,7 +15,8 @@ RULE = ("address (uniform 24-bit, 0, all-ones, block edges, letter-rich) x DF 0.
         "different formats and letter cases give the *same string*; adsb.icao / allcall.icao agree; strided sweep of the 2^24 addresses "
         "(all of them in the thorough tier). non-trivial = address and payload non-zero; canonical cases with a letter digit and "
         "differing case or DF"
-        ' Also: real DF17/20/21 frames with their known addresses (leg corpus), addresses chosen so that the AP field repeats six hex digits of the data part, four concurrent callers (leg threads), 140 000 / 1.3 million distinct frames in a row in one process (leg volume), the first calls of a freshly imported package made by four threads at once (leg first_use), boundary addresses in every context.')
+        ' Also: real DF17/20/21 frames with their known addresses (leg corpus), addresses chosen so that the AP field repeats six hex digits of the data part, four concurrent callers (leg threads), 140 000 / 1.3 million distinct frames in a row in one process (leg volume), the first calls of a freshly imported package made by four threads at once (leg first_use), boundary addresses in every context.'
+        ' Also: data parities with a value of its own (FFFFFF, the address, its complement, ...) by a GF(2) solve.')
 ASSUMPTIONS = ["AP/PI overlay per Annex 10 as implemented in ref/crc24.py", "a frame of either length may carry any DF (icao() is documented length-agnostic)"]
 
 AP = (0, 4, 5, 16, 20, 21)
